@@ -7,7 +7,7 @@
 (*   [cid  |-> cell identity (becomes the cell id in 4.5 notebooks),       *)
 (*    fam  |-> content family (which text the source derives from),        *)
 (*    kind |-> "code" | "markdown" | "raw",                                 *)
-(*    src  |-> 0..10 source variant: 0 family text, 1 small edit (stays    *)
+(*    src  |-> 0..11 source variant: 0 family text, 1 small edit (stays    *)
 (*             "strictly similar"), 2 moderate edit (only approximately    *)
 (*             similar), 3 rewritten (dissimilar), 4 emptied, 5 / 6 two    *)
 (*             far-apart lines edited (differently in 5 and 6), 7 a line   *)
@@ -15,7 +15,8 @@
 (*             column 0, 8 only that character, 9 one line of a run of     *)
 (*             identical adjacent lines deleted (nothing else changes),    *)
 (*             10 only the last line edited (its ending, or lack of one,   *)
-(*             kept),                                                      *)
+(*             kept), 11 the first two lines edited inside the line (at    *)
+(*             column 0 / at the end),                                     *)
 (*    outs |-> 0..7  output-list variant (code cells),                     *)
 (*    md   |-> 0..5  cell metadata variant (2..4 share a tags list that    *)
 (*             grows differently; 5 carries the "nbdime-conflicts" record  *)
@@ -145,7 +146,7 @@ Edits(nb) ==
   \* fine-grained edits inside lines (first cell only, to keep the state space small): 5 / 6 edit the same two
   \* far-apart lines differently; 7 inserts a line before the line 8 edits at column 0, and makes that edit too
   (IF n = 0 THEN {} ELSE
-   { <<[a |-> "EditSource", pos |-> 1, v |-> v], SetField(1, "src", v)>> : v \in 5..10 })
+   { <<[a |-> "EditSource", pos |-> 1, v |-> v], SetField(1, "src", v)>> : v \in 5..11 })
   \cup
   \* convert a cell to another type, keeping its identity (code <-> markdown: outputs / execution count go or come)
   { <<[a |-> "ChangeKind", pos |-> i],
@@ -212,7 +213,7 @@ IsNb(nb) == /\ nb.minor \in 0..5
             /\ nb.nbmd \in (0..4) \cup {12}
             /\ \A i \in 1..Len(nb.cells) :
                   /\ nb.cells[i].kind \in {"code", "markdown", "raw"}
-                  /\ nb.cells[i].src \in 0..10 /\ nb.cells[i].outs \in 0..7
+                  /\ nb.cells[i].src \in 0..11 /\ nb.cells[i].outs \in 0..7
                   /\ nb.cells[i].md \in (0..5) \cup (11..14) /\ nb.cells[i].ec \in 0..2 /\ nb.cells[i].att \in 0..3
 TypeOK == IsNb(base) /\ IsNb(local) /\ IsNb(remote)
 
